@@ -255,7 +255,16 @@ func (le *LockEngine) Require(f *FuncInfo, n ast.Node, key string, write bool, d
 		if base == "" {
 			return false, "lock not held at " + where + ": cannot name the lock at call site " + f.M.posStr(cs.Call.Pos())
 		}
-		if ok, why := le.Require(cs.In, cs.Call, base+rest, write, depth+1); !ok {
+		// ".^" names the object holding the receiver: x.attrs.^.mu is x.mu
+		r2 := rest
+		for strings.HasPrefix(r2, ".^") {
+			i := strings.LastIndex(base, ".")
+			if i < 0 {
+				break
+			}
+			base, r2 = base[:i], strings.TrimPrefix(r2, ".^")
+		}
+		if ok, why := le.Require(cs.In, cs.Call, base+r2, write, depth+1); !ok {
 			return false, why + " ← needed by " + where
 		}
 	}
@@ -506,6 +515,25 @@ func (le *LockEngine) GuardedBy(r *Run, rule string, spec GuardSpec) int {
 		if s := a.F.Info().Selections[a.Sel]; s != nil && base != "" && owner == ast.Expr(a.Sel.X) {
 			base += implicitPath(s, len(s.Index())-1)
 		}
+		// the field lives in a nested struct of the guarded type and is accessed in a method of that nested struct (sa.kvs): the
+		// mutex is the one of the object that holds sa — written ".^" and resolved at the call sites (Require)
+		if owner == ast.Expr(a.Sel.X) && base != "" {
+			if want := lookupType(ix.Pkg, spec.Type); want != nil {
+				if st, isS := want.Underlying().(*types.Struct); isS {
+					direct := false
+					for i := 0; i < st.NumFields(); i++ {
+						if st.Field(i) == a.Field || st.Field(i).Origin() == a.Field.Origin() {
+							direct = true
+						}
+					}
+					if n := namedOf(a.F.Info().TypeOf(a.Sel.X)); !direct && n != nil && n.Origin() != want.Origin() {
+						if _, isStruct := n.Underlying().(*types.Struct); isStruct && implicitFieldOf(st, n) {
+							base += ".^"
+						}
+					}
+				}
+			}
+		}
 		if base == "" {
 			r.Undecided(rule, key, site, "cannot name the object whose "+spec.Mutex+" must be held for "+exprStr(a.Sel))
 			n++
@@ -557,4 +585,16 @@ func (le *LockEngine) ReleasesBetween(f *FuncInfo, a, b *GNode, key string) *GNo
 		})
 	}
 	return hit
+}
+
+// implicitFieldOf: does struct st hold a value of named type n directly in one of its fields?
+func implicitFieldOf(st *types.Struct, n *types.Named) bool {
+	for i := 0; i < st.NumFields(); i++ {
+		if fn := namedOf(st.Field(i).Type()); fn != nil && fn.Origin() == n.Origin() {
+			if _, isPtr := st.Field(i).Type().(*types.Pointer); !isPtr {
+				return true
+			}
+		}
+	}
+	return false
 }
